@@ -1045,6 +1045,24 @@ class Ev:
             return CondV(src(n), a, opn, b)
         if (a is None) != (b is None) and isinstance(op, (ast.Eq, ast.NotEq)):
             return isinstance(op, ast.NotEq)
+        if isinstance(a, Tup) and isinstance(b, Tup) and isinstance(op, (ast.Eq, ast.NotEq)) and getattr(self, "generic_equality", False):
+            # sequences over generic atoms (independent symbols standing for values in general position): equal iff the
+            # same length and element-wise identical expressions
+            eq = len(a.items) == len(b.items)
+            if eq:
+                for x, y in zip(a.items, b.items):
+                    if is_sym(x) and is_sym(y):
+                        if x != y and sp.expand(x - y) != 0:
+                            eq = False
+                            break
+                    else:
+                        r = self.compare(ast.Eq(), x, y, n, mod)
+                        if isinstance(r, (CondV, TolCond)):
+                            raise self.err("comparison of non-constants", n, mod)
+                        if not r:
+                            eq = False
+                            break
+            return eq if isinstance(op, ast.Eq) else not eq
         raise self.err("comparison of non-constants", n, mod)
 
     def e_IfExp(self, n, env, mod):
@@ -1158,6 +1176,16 @@ class Ev:
             return list(v)
         if isinstance(v, RangeV):
             return [sp.Integer(i) for i in range(v.lo, v.hi, v.step)]
+        if isinstance(v, ArrV) and v.shape and (not v.batch or v.batch_last):
+            # a small array iterates over its first (constant) axis
+            if len(v.shape) == 1:
+                return [v.get((i,)) for i in range(v.shape[0])]
+            out = []
+            for i in range(v.shape[0]):
+                sub = ArrV(v.batch, v.shape[1:], v.fill, batch_last=v.batch_last)
+                sub.cells = {kk[1:]: c for kk, c in v.cells.items() if kk[0] == i}
+                out.append(sub)
+            return out
         raise self.err(f"iteration over a non-constant collection ({type(v).__name__})", n, mod)
 
     def comp(self, n, env, mod, elt_fn):
@@ -3421,6 +3449,8 @@ def lib_repeat(ev, a, k, n, mod):
 
 lib_repeat.kw = {"axis", "repeats"}
 def lib_arange(ev, a, k, n, mod):
+    if not all(is_sym(x) and x.is_Integer for x in a):
+        return sp.Function("ARANGE")(*[as_sym(x) for x in a])        # 0, 1, ..., n-1 for a symbolic count: an opaque index vector
     vals = [_const_int(x) for x in a]
     out = ArrV(0, (len(range(*vals)),))
     out.cells = {(i,): sp.Integer(v) for i, v in enumerate(range(*vals))}
@@ -3493,7 +3523,22 @@ def lib_arr_tolist(ev, a, k, n, mod):
     return rec((), 0)
 
 
-LIB.update({"arr.tolist": lib_arr_tolist})
+def lib_arr_flatten(ev, a, k, n, mod):
+    x = a[0]
+    keys = list(itertools.product(*[range(d) for d in x.shape]))
+    if x.batch:
+        # (grid..., k) flattened: the k per-component grid vectors, each still one atom (the order inside a grid vector is the grid's)
+        out = ArrV(x.batch, (len(keys),), x.fill, batch_last=x.batch_last)
+        out.cells = {(i,): x.get(kk) for i, kk in enumerate(keys)}
+        return out
+    out = ArrV(0, (len(keys),), x.fill)
+    out.cells = {(i,): x.get(kk) for i, kk in enumerate(keys)}
+    return out
+
+
+LIB.update({"arr.tolist": lib_arr_tolist, "arr.flatten": lib_arr_flatten, "arr.ravel": lib_arr_flatten})
+# a whole-array atom (one symbol standing for a grid array): flatten / tolist / ravel keep it one atom
+LIB.update({"ndarray.flatten": _ID, "ndarray.ravel": _ID, "ndarray.tolist": lambda ev, a, k, n, mod: Tup([a[0]], "list")})
 LIB.update({f"set.{m_}": lib_set_method(m_) for m_ in ("union", "intersection", "difference", "symmetric_difference", "issubset", "issuperset", "isdisjoint",
                                                           "add", "discard", "remove", "update")})
 
